@@ -399,7 +399,8 @@ func (c *FnCtx) doCallInner(st *State, v ssa.Value, cc *ssa.CallCommon, ins ssa.
 	for _, a := range cc.Args {
 		args = append(args, c.val(st, a))
 	}
-	if sp := c.specOf(callee); sp != nil && callee != nil && (len(sp.requires)+len(sp.ensures) > 0 || sp.hasModifies || sp.pure) {
+	ignoreContract := c.spec != nil && c.spec.options["havoc:"+callee.Name()]
+	if sp := c.specOf(callee); !ignoreContract && sp != nil && callee != nil && (len(sp.requires)+len(sp.ensures) > 0 || sp.hasModifies || sp.pure) {
 		c.applyContract(st, v, callee, sp, args, ins)
 		return
 	}
